@@ -174,7 +174,7 @@ struct SeqEngine : Engine
     std::string rule(std::string const &prop) const override
     {
         if (prop == "C07") return "items are seeded operation histories (3-40 ops, a few of them ending in a 70000-element queue whose fill is exempt from injection) over vec/que/str/buf; within each history EVERY allocation request counted in a fault-free execution is failed once alone (with immediate retry) and once persistently until a seeded recovery point, plus four Bernoulli multi-fault executions; evaluations = executions; distinct_nontrivial = HyperLogLog estimate of distinct (container kind, element size, length, spare-capacity class, fault state) abstract states visited";
-        return "items are seeded operation histories (functions, typed macro forms and iteration macros of the headers; element sizes 0..4100; lengths up to 700, rare queues of 70000 elements; fill/drain bursts; strings compared with and formatted into multi-GiB zero-page views) executed against the real container and a reference model after every operation, on a simulated allocator (relocating, junk-filling, reusing, or passing through to the library's own a_alloc_); evaluations = histories; distinct_nontrivial = HyperLogLog estimate of distinct abstract states (container kind, element size, length, spare-capacity class, sortedness / terminated flag) visited after an operation";
+        return "items are seeded operation histories (functions, typed macro forms and iteration macros of the headers; element sizes 0..4100; lengths up to 700, rare queues of 70000 elements; fill/drain bursts; strings compared with and formatted into multi-GiB zero-page views, formatted texts of up to 6 KiB) executed against the real container and a reference model after every operation, on a simulated allocator (relocating, junk-filling, reusing, or passing through to the library's own a_alloc_); evaluations = histories; distinct_nontrivial = HyperLogLog estimate of distinct abstract states (container kind, element size, length, spare-capacity class, sortedness / terminated flag) visited after an operation";
     }
     std::string level(std::string const &prop) const override { return prop == "C07" ? "fault_enumeration" : "exploration"; }
     std::vector<std::string> assumptions(std::string const &prop) const override
